@@ -89,7 +89,47 @@ func fieldVariants(r *rng, fen string) []string {
 	return out
 }
 
+// a rank field whose empty-square digits add up to 256*m + (what a correct rank needs): a byte-sized file counter wraps
+func overflowRank(r *rng) string {
+	var b []byte
+	target := 256*(1+r.intn(2)) + 8
+	tail := ""
+	switch r.intn(4) {
+	case 0: // ends with a piece and the rest of a normal rank
+		tail = []string{"Q7", "k7", "3P4", "R6r", "7N"}[r.intn(5)]
+		target -= 8
+	case 1: // lands exactly on 256 and stops there (rank of width 0)
+		target -= 8
+	}
+	sum := 0
+	for sum < target {
+		d := 1 + r.intn(8)
+		if r.chance(1, 2) {
+			d = 8
+		}
+		if sum+d > target {
+			d = target - sum
+		}
+		b = append(b, byte('0'+d))
+		sum += d
+	}
+	return string(b) + tail
+}
+
+func overflowFen(r *rng, base string) string {
+	f := strings.Fields(base)
+	if len(f) < 6 {
+		return base
+	}
+	ranks := strings.Split(f[0], "/")
+	ranks[r.intn(len(ranks))] = overflowRank(r)
+	f[0] = strings.Join(ranks, "/")
+	return strings.Join(f, " ")
+}
+
 var fenBoundary = []string{
+	"4k3/8/8/888888888888888888888888888888888/8/8/8/4K3 w - - 0 1", "4k3/8/8/88888888888888888888888888888888Q7/8/8/8/4K3 w - - 0 1",
+	"4k3/8/8/88888888888888888888888888888888/8/8/8/4K3 w - - 0 1", "4k3/8/8/8/8/8/8/4K388888888888888888888888888888888 w - - 0 1",
 	"88p/8/8/8/8/8/8/8 w - - 0 1", "8/8/8/8/8/8/8/p88 w - - 0 1", "k7/8/8/8/8/8/8/K71 w - - 0 1", "k7/8/8/8/8/8/8/K8 w - - 0 1",
 	"k7/8/8/8/8/8/8/K6 w - - 0 1", "88888888888888888888888888888888/8/8/8/8/8/8/8 w - - 0 1",
 	"k7/8/8/8/8/8/8/888888888888888888888888888888888K w - - 0 1",
@@ -168,6 +208,9 @@ func init() {
 		}
 		for i := 0; i < n/10; i++ {
 			emit(randomPlacement(r))
+		}
+		for i := 0; i < n/20+20; i++ {
+			emit(overflowFen(r, valid[r.intn(len(valid))]))
 		}
 		for i := 0; i < n/5; i++ {
 			l := r.intn(80)
